@@ -1,6 +1,7 @@
 INFO = {
     "level": "proof",
     "level_text": "The in-memory loading path hands the csv rows to the stepper in file order (data-flow rule on UpdateRequestsFromFile.build, labelled ast-rule: only order-preserving wrappers between DictReader and DictReaderStepper.from_iterator) -- the premise of the reader contract. The windowed file reader: DictReaderIterator.__next__ (a stateful object; its fields are threaded through the symbolic execution of the real body) is proved, for every reader state, row sequence, parser and stop condition, against the abstract view pending = ([history] if history else []) ++ rows[pos:]: a returned row is the head of pending, its step value parses and satisfies the stop condition and pending loses exactly its head; StopIteration leaves pending unchanged (the row read past the window is kept in history) and is raised only when pending is empty or its head does not satisfy the stop condition; any other exception is the parse error of the head. ObjectIterator.__next__ (the in-memory variant used by the sampling update) is proved against the same abstract view (its step value is getattr(item, name), an uninterpreted function of item and name). Lemma L7 (Lean) turns this per-call contract into the window statement: draining the iterator delivers exactly the longest prefix of pending whose rows satisfy the condition, in file order, each once, and leaves the rest pending. Station.update_prices (fold of station_state_updates over the items of the price map, in any iteration order) is proved to change exactly the price field of exactly the plug types the map names and the station has (inductive invariant over the item sequence with a key-position function). _add_row_to_this_update (latest-row-wins accumulation of one price row): proved for every accumulator and row that exactly the (station|region, plug) entry named by the row is set to the parsed price, every other entry is kept, and an unusable row (missing price / plug / key, unparsable price) leaves the accumulator unchanged without raising. CancelRequests.update — a fold over the sorted request ids — is proved with an inductive invariant, for all states, to remove exactly the waiting requests with sim_time >= departure + timeout and to leave every other request, and everything but the request maps, exactly as it was (keeping the state well-formed and the C02 counts matched); the row-admission closure of update_requests_from_iterator (captured from the real enclosing function) is proved to change the state only by adding a request whose departure + timeout > sim_time and to file exactly one ADD report iff it did; _update_station_prices is proved to change exactly the named station, exactly the plug types the update names, exactly the price field (or nothing if the station cannot be written back); ChargingPriceUpdate.update (per-station tables) is proved never to raise — a table may mention only some stations — and to touch nothing but stations.",
+    "technique": "contract-based deductive verification: VCs generated from the real Python AST (pyvc), discharged by z3/cvc5; one data-flow rule on the real AST (rows reach the stepper in file order; labelled ast-rule, three-valued: proved / refuted / undecided); Lean for lemma L7",
     "level_note": "relative to assumed contracts: the file reader as seen by its callers (`yields the pending rows whose time is below the current sim_time, in file order, each once`: now the consequence of the proved __next__ contract and L7, but the callers still use it as an assumed interface contract; that `for` / `tuple()` call __next__ until StopIteration is Python's iteration protocol), rows sorted by time, DictReaderStepper.read_until_stop_condition only replaces the stop condition (two-line body, not under contract), Request.from_row (parsing), _map_to_station_ids (in-place dict building; its defects F7b/F9 were found by the C01 site scanner and natively, and fixed). `exactly once, in the first step after its time` composes the admission rule with the reader assumption; a request whose origin is outside the geofence makes unwrap() raise (latent: isinstance(sim, Failure) tests the wrong variable; both shipped networks accept every cell).",
     "trusted_base": ["DictReaderStepper/DictReaderIterator reader contract (assumed)", "Request.from_row / SimTime.build parsing (datetime, h3)"],
     "assumptions": ["input rows sorted by time", "request ids unique in the input"],
